@@ -36,7 +36,7 @@ ASSUMPTIONS = [
     "the parsed payload a message should carry is what the library's own parse_payload returns for it sequentially (payload parsing is property C17's subject); version payloads use the library's own dialect (16 ASCII bytes in the address fields)",
     "commands handled automatically = version and ping (required by the statement) plus whatever else a fresh Node registers (verack)",
 ]
-SELFCHECKS = [W.selfcheck]
+SELFCHECKS = [W.selfcheck, S.selfcheck]
 
 NT = "nt:exec/queued-message-step-inside-handled-window"
 KINDS = ("ping", "version", "verack", "inv", "addr", "unknown")
@@ -424,12 +424,9 @@ def explore(p2p, plan, prefix, classes, found):
                     cur[0] += 1
                     if pre < cur[1]:
                         cur[1:] = [pre, detail, list(choices), render(ex.sched.trace)]
-        i = L - 1
-        while i >= d and choices[i] + 1 >= counts[i]:
-            i -= 1
-        if i < d:
+        sched = S.next_schedule(choices, counts, d)
+        if sched is None:
             return nexec
-        sched = choices[:i] + [choices[i] + 1]
 
 
 def check_exhaustive(case):
